@@ -1779,6 +1779,54 @@ async def c18_case(backend, seed, counters):
                     V("over-block/REQ", "only %d REQs were answered within %.1f s although the rule allows %d per minute (%d refused)" % (answered, took, N_REQ, limited))
             else:
                 inconcl.append("e2e c18: the REQs took %.0f s (throttling), longer than the rule's interval" % took)
+        for c in conns:
+            await c.close()
+        del conns[:]
+        srv.stop()
+        # ---- (2) two worker processes, a relay-wide ("global") rule and a per-second rule, one connection, real time
+        N_G, N_S = 4, 3
+        srv = e2e.Server(backend=backend, workers=2, overrides={"rate_limits": {"global": {"REQ": "%d/minute" % N_G}, "ip": {"EVENT": "%d/s" % N_S}}})
+        srv.start()
+        c = await e2e.Client(srv, "one").connect()
+        conns.append(c)
+        t1 = time.time()
+        answered = 0
+        for i in range(N_G + 2):
+            n0 = await c.send(["REQ", "g%d" % i, {"kinds": [1], "limit": 1}])
+            fr = await c.wait_for(lambda fr: [m for m in fr if isinstance(m, list) and (m[:2] == ["EOSE", "g%d" % i] or m[:1] == ["NOTICE"])], timeout=40, since=n0)
+            answered += 1 if fr and fr[-1][0] == "EOSE" else 0
+            if answered == N_G and i >= N_G:
+                break
+        took = time.time() - t1
+        bump(counters, "e2e_command_decisions", N_G + 1)
+        nontrivial.append(h(["e2e-c18", backend, "global-rule-two-workers"]))
+        if took < 50 and answered < N_G:
+            V("over-block/global-rule/several-workers", "with 2 worker processes and the rule global REQ %d/minute, one connection had only %d REQs answered within %.1f s (nothing else was sent to the relay)" % (N_G, answered, took))
+        if took < 50 and answered > N_G:
+            V("over-admit/global-rule/one-connection", "one connection had %d REQs answered within %.1f s under global REQ %d/minute" % (answered, took, N_G))
+        # a burst beyond a per-second rule, then - after the relay's own delays - a message when the window is long empty
+        c2 = await e2e.Client(srv, "two").connect()
+        conns.append(c2)
+        key = ref.key_from_seed("e2e-c18")
+        last_true = None
+        oks = []
+        for i in range(N_S + 3):
+            ev = ref.make_event(key, kind=1, created_at=int(time.time()), tags=[], content="c18 e2e %d %d" % (seed, i))
+            n0 = await c2.send(["EVENT", ev])
+            fr = await c2.wait_for(lambda fr: [m for m in fr if isinstance(m, list) and m[:1] == ["OK"]], timeout=60, since=n0)
+            ok = fr[-1][2] if fr else None
+            oks.append(ok)
+            if ok is True:
+                last_true = time.time()
+        await asyncio.sleep(1.5)
+        quiet_for = time.time() - (last_true or time.time())
+        ev = ref.make_event(key, kind=1, created_at=int(time.time()), tags=[], content="c18 e2e probe %d" % seed)
+        n0 = await c2.send(["EVENT", ev])
+        fr = await c2.wait_for(lambda fr: [m for m in fr if isinstance(m, list) and m[:1] == ["OK"]], timeout=90, since=n0)
+        bump(counters, "e2e_command_decisions", N_S + 4)
+        nontrivial.append(h(["e2e-c18", backend, "after-refusals"]))
+        if oks.count(False) and quiet_for > 1.2 and fr and fr[-1][2] is False and "rate" in str(fr[-1][3]):
+            V("over-block/after-refusals", "after %d refused EVENTs (rule EVENT %d/s) the next EVENT, sent %.1f s after the last admitted one, was refused as %r although no message of that type was let through within the rule's interval" % (oks.count(False), N_S, quiet_for, fr[-1][3]))
     finally:
         for c in conns:
             await c.close()
